@@ -200,7 +200,7 @@ func (m *maker) hostileAmtValue() (string, string) {
 		{"-1", "amt-neg"}, {new(big.Int).Neg(p200).String(), "amt-neg-huge"}, {new(big.Int).Neg(new(big.Int).Add(p64, big.NewInt(1))).String(), "amt-neg-2^64"},
 		{"0", "amt-zero"}, {"1", "amt-one"}, {new(big.Int).Sub(p63, big.NewInt(1)).String(), "amt-2^63-1"}, {p63.String(), "amt-2^63"}, {p64.String(), "amt-2^64"},
 		{new(big.Int).Add(p64, big.NewInt(int64(k))).String(), "amt-2^64+k"}, {p256.String(), "amt-2^256"},
-		{"100000000000000000000000000000", "amt-over"},
+		{"100000000000000000000000000000", "amt-over"}, {"10000000", "amt-1e7"}, {"4611686018427387904", "amt-2^62"},
 		{"1e5", "amt-malformed"}, {"abc", "amt-malformed"}, {"", "amt-malformed"}, {"-", "amt-malformed"}, {"+", "amt-malformed"}, {"0x", "amt-malformed"}, {"١٢٣", "amt-malformed"}, {"-0", "amt-zero"}, {" 5", "amt-malformed"}, {"0x10", "amt-malformed"}, {"1.5", "amt-malformed"},
 		{strings.Repeat("9", 5000), "amt-5000-digits"},
 	}
@@ -210,6 +210,13 @@ func (m *maker) hostileAmtValue() (string, string) {
 
 // hostileAmount replaces an action.Amount ({"currency":..,"value":".."}).
 func (m *maker) hostileAmount(old map[string]interface{}) hv {
+	// values just beyond what the well-formed transaction asked for (refusals deep in the stores)
+	if ov, ok := old["value"].(string); ok && m.pick(5, "amtrel") == 0 {
+		if b, ok := new(big.Int).SetString(ov, 10); ok {
+			mul := []int64{2, 1000, 10000000, 1000000000000}[m.pick(4, "amtmul")]
+			return hv{map[string]interface{}{"currency": old["currency"], "value": new(big.Int).Mul(b, big.NewInt(mul)).String()}, fmt.Sprintf("amt-x%d", mul)}
+		}
+	}
 	switch m.pick(6, "amtshape") {
 	case 0:
 		c, ct := m.hostileCur()
@@ -1140,7 +1147,23 @@ func (m *maker) draw(g *hist.Gen) Input {
 		switch {
 		case k < 12:
 			return m.rawInput()
-		case k < 30 && g != nil:
+		case k < 17 && g != nil:
+			// the staking family with amounts around what is staked / withdrawable (refusals inside the stores)
+			var tx txgen.Tx
+			switch m.pick(4, "stakingkind") {
+			case 0:
+				tx = g.Stake()
+			case 1, 2:
+				tx = g.Unstake()
+			default:
+				tx = g.WithdrawStake()
+			}
+			tags := tx.Tags
+			if len(tags) == 0 {
+				tags = []string{"plain"}
+			}
+			return Input{Bytes: tx.Bytes, Kind: tx.Kind, Tier: "gen-staking", Tags: tags}
+		case k < 32 && g != nil:
 			tx := g.Draw()
 			tags := tx.Tags
 			if len(tags) == 0 {
